@@ -175,6 +175,58 @@ def cone_of_influence(hyps, goal, rounds):
     return [h for i, h in enumerate(hyps) if chosen[i]]
 
 
+def ground_stage(hyps, goal, neg, timeout_ms, deadline_s, t0):
+    """quantifier instantiation by hand (DESIGN 12.1): -> backend string if proved, else None.
+    A universally quantified goal is skolemised; the quantified hypotheses are instantiated at the simple ground index terms
+    of the goal (one hypothesis, then pairs, then all); a case split on the conditions of if-then-else terms of the goal (new
+    element / old elements of an updated sequence); every case must be refuted.  Only consequences of the hypotheses are
+    used, so a `proved` is sound."""
+    import itertools
+    if z3.is_quantifier(goal) and goal.is_forall() and not _has_quant([goal.body()]):
+        sks = [z3.FreshConst(goal.var_sort(j), "sk") for j in range(goal.num_vars())]
+        neg = z3.Not(z3.substitute_vars(goal.body(), *reversed(sks)))
+    if _has_quant([neg]):
+        return None
+    try:
+        qf = [h for h in hyps if not _has_quant([h])]
+        qs = [h for h in hyps if _has_quant([h])][:8]
+        conds = _ite_conditions(neg)[:2]
+        cases = [[]]
+        for c in conds:
+            cases = [cs + [c] for cs in cases] + [cs + [z3.Not(c)] for cs in cases]
+        subsets = [[q] for q in qs] + [list(p_) for p_ in itertools.combinations(qs, 2)] + ([qs] if len(qs) > 2 else [])
+        insts = {}
+        deadline = time.time() + deadline_s
+        for case in cases:
+            done = False
+            for sel in subsets:
+                if time.time() > deadline:
+                    return None
+                key = tuple(id(q) for q in sel)
+                if key not in insts:
+                    insts[key] = ground_instances(qf + sel, neg)
+                ts = z3.Solver()
+                ts.set("timeout", timeout_ms)
+                for h in insts[key]:
+                    ts.add(h)
+                for c in case:
+                    ts.add(c)
+                ts.add(neg)
+                rr = ts.check()
+                if os.environ.get("PYVC_TRACE"):
+                    print("ground-instances", len(case), len(sel), len(insts[key]), rr, round(time.time() - t0, 1), file=sys.stderr)
+                if rr == z3.unsat:
+                    done = True
+                    break
+            if not done:
+                return None
+        return f"z3(ground instances of the quantified hypotheses, {len(cases)} case(s))"
+    except z3.Z3Exception as e:
+        if os.environ.get("PYVC_TRACE"):
+            print("ground-instances error", e, file=sys.stderr)
+    return None
+
+
 def check(hyps, goal, inputs=None, timeout_ms=8000, use_cvc5=True, second_opinion=False):
     """-> (status, backend, seconds, model_dict|None, reason)"""
     t0 = time.time()
@@ -201,6 +253,11 @@ def check(hyps, goal, inputs=None, timeout_ms=8000, use_cvc5=True, second_opinio
         s.add(h)
     s.add(neg)
     r = s.check()
+    if r == z3.unknown and _has_quant(list(hyps) + [neg]):
+        # cheap first round of instantiation by hand (short per-attempt budget); the long round comes after the other solvers
+        be = ground_stage(hyps, goal, neg, 2000, 20.0, t0)
+        if be:
+            return "proved", be, time.time() - t0, None, ""
     if r == z3.unknown and use_cvc5 and _has_quant(list(hyps) + [neg]):
         r2 = run_cvc5(s, min(timeout_ms, 6000))
         if r2 == "unsat":
@@ -237,59 +294,10 @@ def check(hyps, goal, inputs=None, timeout_ms=8000, use_cvc5=True, second_opinio
                 return "proved", "z3-" + tac, time.time() - t0, None, ""
             if r == z3.sat:
                 return "refuted", "z3-" + tac, time.time() - t0, model_to_dict(ts.model(), inputs or {}), ""
-    neg_orig = neg
-    if quant and z3.is_quantifier(goal) and goal.is_forall() and not _has_quant([goal.body()]):
-        # a universally quantified goal: refute its negation at fresh (skolem) constants
-        sks = [z3.FreshConst(goal.var_sort(j), "sk") for j in range(goal.num_vars())]
-        neg = z3.Not(z3.substitute_vars(goal.body(), *reversed(sks)))
-    if quant and not _has_quant([neg]):
-        # quantifier instantiation by hand: instances of the quantified hypotheses at the ground index terms of the goal,
-        # with a case split on the conditions of if-then-else terms of the goal (new element / old elements of an updated
-        # sequence); every case must be refuted, each from some subset of the instantiated hypotheses
-        try:
-            import itertools
-            qf = [h for h in hyps if not _has_quant([h])]
-            qs = [h for h in hyps if _has_quant([h])][:8]
-            conds = _ite_conditions(neg)[:2]
-            cases = [[]]
-            for c in conds:
-                cases = [cs + [c] for cs in cases] + [cs + [z3.Not(c)] for cs in cases]
-            subsets = [[q] for q in qs] + [list(p_) for p_ in itertools.combinations(qs, 2)] + ([qs] if len(qs) > 2 else [])
-            insts = {}
-            deadline = time.time() + 5.0 * timeout_ms / 1000.0
-            ok = True
-            used = []
-            for case in cases:
-                done = False
-                for sel in subsets:
-                    if time.time() > deadline:
-                        break
-                    key = tuple(id(q) for q in sel)
-                    if key not in insts:
-                        insts[key] = ground_instances(qf + sel, neg)
-                    ts = z3.Solver()
-                    ts.set("timeout", timeout_ms)
-                    for h in insts[key]:
-                        ts.add(h)
-                    for c in case:
-                        ts.add(c)
-                    ts.add(neg)
-                    rr = ts.check()
-                    if os.environ.get("PYVC_TRACE"):
-                        print("ground-instances", len(case), len(sel), len(insts[key]), rr, round(time.time() - t0, 1), file=sys.stderr)
-                    if rr == z3.unsat:
-                        done = True
-                        used.append(len(sel))
-                        break
-                if not done:
-                    ok = False
-                    break
-            if ok:
-                return "proved", f"z3(ground instances of the quantified hypotheses, {len(cases)} case(s))", time.time() - t0, None, ""
-        except z3.Z3Exception as e:
-            if os.environ.get("PYVC_TRACE"):
-                print("ground-instances error", e, file=sys.stderr)
-    neg = neg_orig
+    if quant:
+        be = ground_stage(hyps, goal, neg, timeout_ms, 5.0 * timeout_ms / 1000.0, t0)
+        if be:
+            return "proved", be, time.time() - t0, None, ""
     if quant:
         # proving from FEWER hypotheses is sound: drop the quantified ones and use the nonlinear tactics
         qf = [h for h in hyps if not _has_quant([h])]
